@@ -40,7 +40,8 @@ def run(tier: str, seed: int) -> int:
                     continue
                 msg = errs[0]["message"]
                 atoms = c.tags.get("atoms")
-                if atoms and ["iter", "match"] in [list(a) for a in atoms] and msg == "invalid mode":
+                if atoms and [list(a) for a in atoms] == [["iter", "match"]]:
+                    # the finding is identified by the input (this one configuration), not by the message text
                     sig = "C10|rejects|iter(mode=\"match\")"
                 else:
                     sig = "C10|rejects|%s|%s|%s" % (c.decl.shape, c.cfg.short()[:200], msg[:60])
